@@ -33,9 +33,13 @@ type Field struct {
 
 // Node is a neutral composite-literal tree.
 type Node struct {
-	Kind   NodeKind
-	Type   string // composite: type name as written ("" when elided), e.g. "seqExpr", "[]any", "[128]bool"
-	Ptr    bool   // &T{...}
+	Kind NodeKind
+	Type string // composite: type name as written ("" when elided), e.g. "seqExpr", "[]any", "[128]bool"
+	Ptr  bool   // &T{...}
+	// Shared: the node is the value of a package-level variable of the prefix; every reference
+	// to that variable yields this very node, and the loader builds ONE value for it (node
+	// identity, i.e. pointer equality of grammar nodes, is part of what the builder emits)
+	Shared bool
 	Fields []Field
 	Elems  []*Node
 	// Index: explicit indices of Elems (array / slice literal written with "index: value"
@@ -43,11 +47,11 @@ type Node struct {
 	Index []int64
 	// MapKeys: keys of a map literal (parallel to Elems)
 	MapKeys []*Node
-	Str   string
-	Int    int64
-	Bool   bool
-	Func   string  // NFuncRef: method name ; NCall: function name
-	Args   []*Node // NCall
+	Str     string
+	Int     int64
+	Bool    bool
+	Func    string  // NFuncRef: method name ; NCall: function name
+	Args    []*Node // NCall
 }
 
 // Block is one code block as emitted: the on<X> method and callon<X> trampoline.
@@ -102,6 +106,7 @@ func ParsePrefix(prefix []byte) (*Prefix, error) {
 	p := &Prefix{Blocks: map[string]*Block{}}
 	// other package-level variables of the prefix (the grammar literal may name them)
 	pkgVars = map[string]ast.Expr{}
+	pkgVarNodes = map[string]*Node{}
 	for _, d := range f.Decls {
 		if gd, ok := d.(*ast.GenDecl); ok && gd.Tok == token.VAR {
 			for _, s := range gd.Specs {
@@ -355,6 +360,7 @@ func typeString(e ast.Expr) string {
 
 // pkgVars: package-level variables of the prefix being parsed (ParsePrefix is not re-entrant).
 var pkgVars map[string]ast.Expr
+var pkgVarNodes map[string]*Node
 var convDepth int
 
 func constIndex(e ast.Expr) (int64, bool) {
@@ -466,7 +472,13 @@ func conv(e ast.Expr) (*Node, error) {
 		case token.INT:
 			i, err := strconv.ParseInt(x.Value, 0, 64)
 			if err != nil {
-				return nil, err
+				// a constant above MaxInt64 (a uint64 mask): kept as its bit pattern; the loader
+				// converts NInt to the wanted type the way Go converts int64 -> uint64
+				u, err2 := strconv.ParseUint(x.Value, 0, 64)
+				if err2 != nil {
+					return nil, err
+				}
+				i = int64(u)
 			}
 			return &Node{Kind: NInt, Int: i}, nil
 		case token.CHAR:
@@ -487,8 +499,19 @@ func conv(e ast.Expr) (*Node, error) {
 			return &Node{Kind: NNil}, nil
 		}
 		if v, ok := pkgVars[x.Name]; ok {
-			// another package-level variable of the emitted prefix: its value
-			return conv(v)
+			// another package-level variable of the emitted prefix: its value (one node per variable)
+			if n, ok := pkgVarNodes[x.Name]; ok {
+				return n, nil
+			}
+			n, err := conv(v)
+			if err != nil {
+				return nil, err
+			}
+			if n.Kind == NComposite {
+				n.Shared = true
+				pkgVarNodes[x.Name] = n
+			}
+			return n, nil
 		}
 	case *ast.SelectorExpr:
 		// (*parser).callonX
